@@ -275,6 +275,9 @@ func Reply(t *rapid.T, call spec.Call) []byte {
 			put32("card", 0xffffffff)
 		case k == 14:
 			put32("card", call.Card)
+		case k >= 15 && k <= 17:
+			// another number that a person would call 'the same card': the requested number in another notation or arithmetic form
+			put32("card", RelatedCard(call.Card, rapid.IntRange(0, 11).Draw(t, "card.related")))
 		}
 	case "GetTimeProfile":
 		switch k := rapid.IntRange(0, 9).Draw(t, "profile.kind"); {
@@ -299,4 +302,46 @@ func Reply(t *rapid.T, call spec.Call) []byte {
 		}
 	}
 	return b
+}
+
+// RelatedCard returns a card number that stands in a simple relation to c: the Wiegand-26 decimal form FFFNNNNN (facility code
+// 0..255, number 0..65535) <-> the raw 24-bit form F<<16|N, byte orders, the low 24 / 16 bits, the decimal digits read as
+// hexadecimal and back, neighbours. A reply that echoes such a number is a reply about ANOTHER card.
+func RelatedCard(c uint32, k int) uint32 {
+	f, n := c/100000, c%100000
+	switch k % 12 {
+	case 0: // decimal Wiegand form -> raw
+		return (f&0xff)<<16 | n&0xffff
+	case 1: // raw -> decimal Wiegand form
+		return (c>>16&0xff)*100000 + c&0xffff
+	case 2:
+		return c<<24 | c>>24 | c<<8&0x00ff0000 | c>>8&0x0000ff00
+	case 3:
+		return c & 0x00ffffff
+	case 4:
+		return c & 0xffff
+	case 5:
+		return c | 0x01000000
+	case 6: // decimal digits read as hexadecimal
+		var v uint32
+		for d, x := uint32(1), c; x > 0 && d != 0; d, x = d<<4, x/10 {
+			v += x % 10 * d
+		}
+		return v
+	case 7: // hexadecimal digits read as decimal (where they are all decimal digits)
+		var v, m uint32 = 0, 1
+		for x := c; x > 0; x >>= 4 {
+			v += (x & 0xf) % 10 * m
+			m *= 10
+		}
+		return v
+	case 8:
+		return c + 1
+	case 9:
+		return c - 1
+	case 10: // number and facility code swapped
+		return n%256*100000 + f%65536
+	default:
+		return c ^ 0x80000000
+	}
 }
